@@ -41,7 +41,8 @@ class BuilderWorld(World):
         self.keys = KeyRing(self.lib, header["key_seeds"])
         self.cstate = SimClockState(header["epoch"], header.get("utc_offset_h", 0))
         self.patch = Patcher()
-        self.patch.set(self.lib.common, "datetime", make_clock_class(self.cstate))
+        self.simclock_cls = make_clock_class(self.cstate)
+        self.patch.set(self.lib.common, "datetime", self.simclock_cls)
         self.jumps = []
         self.read_times = []
         self.cstate.hook = self._hook
@@ -49,6 +50,10 @@ class BuilderWorld(World):
 
     def close(self):
         self.patch.restore()
+
+    def _reinstall_clock(self):
+        # reset_library_state() restores module attributes to their import-time values: put the simulated clock back
+        self.lib.common.datetime = self.simclock_cls
 
     def _hook(self, n):
         if self.jumps:
@@ -97,6 +102,19 @@ class BuilderWorld(World):
             return False
         if md["type"] in ("root", "key_mgr"):
             c = self.calls.call("checkformat_delegating_metadata", w.value)
+            if c.ok:
+                # the same verdict from a checker that has no history (another process, a fresh client)
+                from seams import reset_library_state
+                reset_library_state()
+                self.patch.set(self.lib.common, "datetime", self.lib.common.datetime) if False else None
+                self._reinstall_clock()
+                c2 = self.calls.call("checkformat_delegating_metadata", copy.deepcopy(w.value))
+                run.probe("fresh_state_recheck")
+                if not c2.ok:
+                    run.violate(("C16", "C12"), "builder-output-malformed",
+                                "%s returned metadata that a checker without history rejects (%r) although the checker in this process accepted it"
+                                % (fn, c2), "builder-output-malformed:fresh")
+                    return False
             if not c.ok:
                 run.violate(("C16",), "builder-output-malformed", "%s returned metadata the delegating-metadata checker rejects: %r"
                             % (fn, c), "builder-output-malformed")
@@ -197,7 +215,10 @@ class BuilderWorld(World):
                             "builder-rejected-valid:" + o.cls)
             return
         run.accepts += 1
-        self._check_md(fn, o.value, given, plain, None)
+        if self._check_md(fn, o.value, given, plain, None) and isinstance(o.value.get("delegations"), dict):
+            # the operator goes on editing what the builder returned (adds a role by hand); later builder calls must not see it
+            o.value["delegations"]["added-by-hand"] = {"pubkeys": [self.keys.pub[0]], "threshold": 1}
+            o.value["type"] = "edited"
 
     def op_closure(self, op):
         """v -> v+1 -> v+2 built by build_root_metadata, threshold-signed in OpenPGP mode, verified by verify_root."""
